@@ -41,11 +41,11 @@ class Table(dict):
         raise NotImplementedError()
 
     def get(self, x):
-        v = self._df.get(x)
+        v = self.get_dataframe().get(x)
         return KLONG_UNDEFINED if v is None else v.values
 
     def set(self, x, y):
-        self._df[x] = y
+        self.get_dataframe()[x] = y
         self.columns = list(self._df.columns)
 
     def schema(self):
